@@ -108,6 +108,9 @@ META = {
             '(log10 precondition); a share of the parameters lives in linear '
             'space only (linear mode, Uniform/Gaussian priors) with signed '
             'bounds and values incl. exactly 0',
+            'at every build of a real model (transmission, emission, direct '
+            'image) the parameter tables it offers must be the union of what '
+            'its components and the model object itself declare',
             'views are compared immediately after compile_params(); between a '
             'settings change and the next compile they are unspecified',
             'with a user prior, fit_boundaries may be either the parameter '
@@ -245,7 +248,8 @@ META = {
                    'real_nestle_run', 'second_fit_same_optimizer',
                    'derived_trace_with_nan',
                    'observation_replaced_between_fits',
-                   'tied_sample_values', 'tied_derived_values'],
+                   'tied_sample_values', 'tied_derived_values',
+                   'polychord_without_clustering'],
         'real': ['Optimizer.fit / generate_solution / generate_profiles / '
                  'compute_derived_trace', 'store_nestle_output, '
                  'store_nest_solutions, store_polychord_solutions, '
@@ -274,6 +278,12 @@ META = {
             'first of each tied block: the result must lie in the envelope '
             'spanned by the two extreme orders (exact otherwise); weights may '
             'tie freely',
+            'weights need not sum to one (PolyChord scales them to a maximum '
+            'of one, a MultiNest mode holds its share): means and quantiles '
+            'are scale free',
+            'PolyChord with clustering switched off writes only the main '
+            'chain file and a one-row .stats; cluster files of an earlier '
+            'run may still lie in the directory',
             'resume/crash of the external samplers is out of scope',
         ],
     },
@@ -318,6 +328,10 @@ META = {
             'k-table interpolation mode is checked for loads after an explicit '
             'KTableCache.clear_cache()',
             'NEMESIS k-tables and RADIS are not in the statement',
+            'pressure units of the HDF5 containers: Pa, bar, kPa, mbar, MPa, '
+            'mPa, hPa, uPa, Torr and the CDS-only atm and mmHg',
+            'listing the molecules or k-tables of an intact store must not '
+            'raise',
             'beside a cut-short container a request may fail (discovery opens '
             'every file); whatever is served must still be the right table '
             'from the configured path, and load_opacity(opacity_path=...) '
@@ -413,6 +427,11 @@ META = {
             'Absorption source are not demanded (molecules share the '
             'quadrature points); composition over sources, add-order '
             'independence, zero abundance and history independence are',
+            'what store_contributions hands to the output file is compared '
+            'entry by entry (native/binned spectrum and optical depth of '
+            'every source and component) with model_contrib / '
+            'model_full_contrib and a fresh binner; the Rayleigh source has '
+            'one component per species present anywhere with Rayleigh data',
             'a factor common to all components is invisible to these '
             'relations (C01 ground, not applicable)',
             'nothing is demanded at the moment an exception escapes inside the '
